@@ -120,7 +120,16 @@ pub fn logic_oracle(url: &str, text: &str, report: &mut Report, replay: &serde_j
       _ if is_placeholder(e) => InitClass::Placeholder,
       Lit(_) => InitClass::LiteralLike,
       Tpl(t) if t.exprs.is_empty() => InitClass::LiteralLike,
-      Tpl(_) => InitClass::Leavable("template-with-substitutions"),
+      Tpl(t) => {
+        // a substitution that is itself logic (a call, `new`, …) makes the whole template logic
+        let mut worst = InitClass::Leavable("template-with-substitutions");
+        for sub in &t.exprs {
+          if let InitClass::Other(kind) = classify_init(sub) {
+            worst = InitClass::Other(kind);
+          }
+        }
+        worst
+      }
       Paren(p) => classify_init(&p.expr),
       TsConstAssertion(c) => classify_init(&c.expr),
       TsSatisfies(c) => classify_init(&c.expr),
